@@ -440,7 +440,9 @@ def inject_one_fault(src: str, r: random.Random):
         ind = len(l) - len(l.lstrip(" "))
         depth = "nested" if ind else "top"
         if in_py:
-            sites.setdefault("py-block-line", []).append(i)
+            # only the FIRST statement of a block (in-place effects of a half-run block are outside the model)
+            if lines[i - 1].strip().startswith("@py"):
+                sites.setdefault("py-block-line", []).append(i)
         elif st.startswith("~ ") and not st.startswith("~ tr ="):
             sites.setdefault(f"stmt:{depth}", []).append(i)
         elif st.startswith("@for "):
